@@ -37,7 +37,8 @@ EnvelopeFails(e) ==
   IF e.err # "" THEN <<"C17.wrap">>
   ELSE IF ~e.label THEN Tag(~e.envlabel /\ e.aeskey = e.key, "C17.wrap")
   ELSE Tag(e.envlabel /\ e.aeskey = Wrap(e.kek, e.key), "C17.wrap")
-    \o Tag(e.unwrap_err = "" /\ e.unwrap = e.key /\ UnwrapOK(e, "unwrap") /\ UnwrapOK(e, "tampered") /\ UnwrapOK(e, "wrongkek"), "C17.unwrap")
+    \o Tag(e.unwrap_err = "" /\ e.unwrap = e.key /\ UnwrapOK(e, "unwrap") /\ UnwrapOK(e, "tampered") /\ UnwrapOK(e, "wrongkek")
+           /\ UnwrapOK(e, "strayed") /\ UnwrapOK(e, "cut"), "C17.unwrap")
 
 StructFails(e) == Tag(e.err = "" /\ "back" \in DOMAIN e /\ e.back = e.doc, "C17.struct")
 
@@ -46,6 +47,7 @@ Fails(e) == CASE e.ev = "num" -> NumFails(e)
               [] e.ev = "time" -> TimeFails(e)
               [] e.ev = "envelope" -> EnvelopeFails(e)
               [] e.ev = "struct" -> StructFails(e)
+              [] e.ev = "hang" -> <<e.prop \o ".hang">>    \* a call that never returned (recorded by the watchdog of the harness)
               [] OTHER -> <<"unknown-event">>
 Init == l = 1 /\ nfail = 0
 Next == /\ l <= Len(Tr)
